@@ -48,7 +48,7 @@ def run(res, tier, broken):
     for b in tb:
         broken.append({"kind": "T1-skeleton", **b})
     vs.campaign(res, broken, tier, "C05", "sc_sync", ["sc_sync.c"], scenario_params, validate,
-                sizes={"quick": (20, 3), "thorough": (200, 8), "search": (150, 6)})
+                sizes={"quick": (20, 3), "thorough": (200, 8), "search": (150, 6)}, reject_is_failure=vs.protocol_reject_is_failure)
 
 
 def replay(res, path):
